@@ -422,6 +422,53 @@ func (g *G) stClosure() Tri {
 func (g *G) stDefer() Tri {
 	g.feat("defer")
 	kw := tl("defer", "押后", "defer")
+	switch g.n(0, 5, "deferForm") {
+	case 0: // deferred call of a top-level function (arguments are evaluated now)
+		var cands []*Fn
+		for _, f := range g.funcs {
+			if f.Recv == nil && f != g.cur && (f.Pure || g.cur == nil || !g.cur.Pure) {
+				cands = append(cands, f)
+			}
+		}
+		if len(cands) > 0 {
+			f := cands[g.n(0, len(cands)-1, "deferFn")]
+			g.feat("defer-call")
+			return tf("%s %s(%s)", kw, f.Name, g.callArgs(f, 2))
+		}
+	case 1: // deferred interface-method call
+		ivs := g.varsOf(func(v *Var) bool { return v.T.K == KIface && v.Level == g.level && !v.Global })
+		if len(ivs) > 0 && (g.cur == nil || !g.cur.Pure) {
+			v := ivs[g.n(0, len(ivs)-1, "deferIface")]
+			m := v.T.Methods[g.n(0, len(v.T.Methods)-1, "deferMeth")]
+			var as []Tri
+			for _, p := range m.Params {
+				as = append(as, g.gen(p, 2).E)
+			}
+			g.feat("defer-iface-call")
+			return tf("%s %s(%s)", kw, sel(same(v.Name), m.Name), join(as, ", "))
+		}
+	case 2: // deferred method call on a struct variable / pointer
+		vs := g.varsOf(func(v *Var) bool {
+			if v.Global || v.Level != g.level || (g.cur != nil && g.cur.Pure) {
+				return false
+			}
+			return (v.T.K == KStruct && len(v.T.Methods) > 0 && !v.RO) || (v.T.K == KPtr && len(v.T.Elem.Methods) > 0)
+		})
+		if len(vs) > 0 {
+			v := vs[g.n(0, len(vs)-1, "deferRecv")]
+			st := v.T
+			if st.K == KPtr {
+				st = st.Elem
+			}
+			m := st.Methods[g.n(0, len(st.Methods)-1, "deferMethS")]
+			var as []Tri
+			for _, p := range m.Params {
+				as = append(as, g.gen(p, 2).E)
+			}
+			g.feat("defer-method-call")
+			return tf("%s %s(%s)", kw, sel(same(v.Name), m.Name), join(as, ", "))
+		}
+	}
 	if g.coin("deferPrint") {
 		t := scalarTypes[g.n(0, len(scalarTypes)-1, "dT")]
 		return tf("%s %s", kw, printCall(same(`"deferred"`), g.ifaceArg(t, 2)))
